@@ -25,6 +25,8 @@ type TierSpec struct {
 	// MaxWallS: wall-clock budget per harness in seconds (default 1500 quick / 7200 thorough); when
 	// it runs out with paths pending the run is INCONCLUSIVE (a changed tree must not hang a check)
 	MaxWallS int `json:"max_wall_s"`
+	// Preemptions: per-tier override of the harness's preemption bound
+	Preemptions *int `json:"preemptions"`
 	MaxPaths      int            `json:"max_paths"`
 	QueryTimeoutS int            `json:"query_timeout_s"`
 	Skip          bool           `json:"skip"`
@@ -461,6 +463,9 @@ func (u *Unit) tierFor(hs *HarnessSpec, tier string) TierSpec {
 			merged.QueryTimeoutS = ht.QueryTimeoutS
 		}
 		merged.Skip = ht.Skip
+		if ht.Preemptions != nil {
+			merged.Preemptions = ht.Preemptions
+		}
 	}
 	if merged.MaxSteps == 0 {
 		merged.MaxSteps = 5_000_000
@@ -484,6 +489,9 @@ func runHarness(p *Program, spec *Unit, hs *HarnessSpec, tier string, o *runOpts
 	}
 	if hs.Preemptions != nil {
 		hspec.Preemptions = *hs.Preemptions
+	}
+	if ts.Preemptions != nil {
+		hspec.Preemptions = *ts.Preemptions
 	}
 	if hs.EnvFires != nil {
 		hspec.EnvFires = *hs.EnvFires
